@@ -264,7 +264,8 @@ static void report_access (int cls, const char *what, Fibre *f, uintptr_t pc, ui
 			   int other_tid, uint32_t other_pc, const char *other_what) {
 	char a[256], site[160];
 	if (cls == V_DEAD_ACCESS && !g_access_is_write && nsim_cfg.tolerate_dead_reads_in && pc &&
-	    (strstr (rt_symname (pc), nsim_cfg.tolerate_dead_reads_in) || nsim_fibre_in_func (f->tid, nsim_cfg.tolerate_dead_reads_in))) {
+	    (strstr (rt_symname (pc), nsim_cfg.tolerate_dead_reads_in) || nsim_fibre_in_func (f->tid, nsim_cfg.tolerate_dead_reads_in) ||
+	     (f->opname && strstr (f->opname, nsim_cfg.tolerate_dead_reads_in)))) {
 		// a documented, tolerated read of reclaimed memory (see DESIGN.md, Appendix B): the run is cut here and discarded --
 		// never a verdict, and never continued, because what such a read returns is not defined
 		g.probe_hit[P_TOLERATED_DEAD_READ]++;
@@ -1247,6 +1248,15 @@ extern "C" time_t nsim_sys_time (time_t *t) {
 }
 
 // malloc / free / memset from simulated code
+// Is this allocation a constructor's own?  Either the caller is nsync_note_new / nsync_counter_new itself, or one of them is on
+// the fibre's call stack (the allocation may sit in a helper) while the allocation is not the waiter pool's and not made from
+// inside a mutex operation (nsync_waiter_new_'s unchecked malloc is outside C19's statement).
+static bool is_ctor_allocation (const char *fn) {
+	if (strstr (fn, "nsync_note_new") || strstr (fn, "nsync_counter_new")) return true;
+	int tid = g.cur->tid;
+	if (!nsim_fibre_in_func (tid, "nsync_note_new") && !nsim_fibre_in_func (tid, "nsync_counter_new")) return false;
+	return !strstr (fn, "nsync_waiter_new_") && !nsim_fibre_in_func (tid, "nsync_waiter_new_") && !nsim_fibre_in_func (tid, "nsync_mu_");
+}
 extern "C" void *nsim_sys_malloc (size_t n) {
 	if (!g.in_run || !g.cur) return ::malloc (n);
 	uintptr_t pc = (uintptr_t) __builtin_return_address (0);
@@ -1254,7 +1264,7 @@ extern "C" void *nsim_sys_malloc (size_t n) {
 	g.nmallocs++;
 	TRACE ("malloc(%zu) from %s", n, fn);
 	// F7: only the constructors' own allocation may fail (documented "or NULL")
-	if (strstr (fn, "nsync_note_new") || strstr (fn, "nsync_counter_new")) {
+	if (is_ctor_allocation (fn)) {
 		g.ctor_allocs++;
 		if ((nsim_cfg.fail_alloc_index > 0 && g.ctor_allocs == nsim_cfg.fail_alloc_index) || choose_fault (CH_F_ALLOC)) {
 			TRACE ("malloc fails (injected)");
@@ -1279,7 +1289,7 @@ extern "C" void *nsim_sys_calloc (size_t a, size_t b) {
 	const char *fn = rt_symname (pc);
 	g.nmallocs++;
 	TRACE ("calloc(%zu,%zu) from %s", a, b, fn);
-	if (strstr (fn, "nsync_note_new") || strstr (fn, "nsync_counter_new")) {
+	if (is_ctor_allocation (fn)) {
 		g.ctor_allocs++;
 		if ((nsim_cfg.fail_alloc_index > 0 && g.ctor_allocs == nsim_cfg.fail_alloc_index) || choose_fault (CH_F_ALLOC)) {
 			if (nsim_cfg.fail_alloc_index > 0) g.faults_fired[CH_F_ALLOC]++;
